@@ -1,5 +1,6 @@
 import DFV.JsonField
 import DFV.Model.C09
+import DFV.Model.C09Lex
 namespace DFV.Drv
 open Lean DFV DFV.C09
 
@@ -84,6 +85,39 @@ def sideOfJson (j : Json) : R (Option (List (String × Region))) :=
       pure (nm, r)
     pure (some l)
 
+def rawLineToJson : RawLine → Json
+  | .kv k v => Json.arr #[.str "kv", .str k, .str v]
+  | .other => Json.arr #[.str "other"]
+  | .data ws => Json.arr #[.str "data", strsJ ws]
+
+def lexedToJson (L : Lexed) : Json :=
+  Json.mkObj [("first", natsJ L.first), ("lines", listJ rawLineToJson L.lines),
+    ("data", match L.data with
+      | none => Json.null
+      | some (ws, rest) => Json.mkObj [("words", strsJ ws), ("rest", .num (JsonNumber.fromNat rest.length))])]
+
+/-- Python's `float()` / `repr()` as tables: `[[text, rational], ...]` -/
+def numIOOfJson (j : Json) : R NumIO := do
+  let tab ← match fldOpt j "floats" with
+    | some t => listOf (fun e => do
+        let a ← arr e
+        match a.toList with
+        | [t, q] => pure ((← strOfJson t), (← ratOfJson q))
+        | _ => throw "bad floats entry") t
+    | none => pure []
+  pure { fmt := fun q => match tab.find? fun p => p.2 == q with
+                  | some p => p.1.toList
+                  | none => ['?'],
+         pfloat := fun cs => (tab.find? fun p => p.1.toList == cs).map (·.2) }
+
+def textBodyOfJson (j : Json) : R (List (List Rat) × List String) :=
+  match fldOpt j "text" with
+  | some t => do
+      let rows ← listOf (listOf ratOfJson) (← fld t "rows")
+      let footer ← listOf strOfJson (← fld t "footer")
+      pure (rows, footer)
+  | none => pure ([], [])
+
 def c09 (op : String) (j : Json) : Option (R Json) :=
   match op with
   | "write" => some do
@@ -98,6 +132,24 @@ def c09 (op : String) (j : Json) : Option (R Json) :=
         | some r => listOf strOfJson r
         | none => pure []
       pure (resJ ofieldToJson (fromOvf ieee isWordC (fun s => reserved.contains s) F side))
+  | "lex" => some do
+      let bytes ← listOf natOfJson (← fld j "bytes")
+      pure (resJ lexedToJson (lexBytes bytes))
+  | "readbytes" => some do
+      let bytes ← listOf natOfJson (← fld j "bytes")
+      let N ← numIOOfJson j
+      let tb ← textBodyOfJson j
+      let side ← sideOfJson j
+      let reserved ← match fldOpt j "reserved" with
+        | some r => listOf strOfJson r
+        | none => pure []
+      pure (resJ ofieldToJson (fromOvfBytes N (fun _ => tb) ieee isWordC (fun s => reserved.contains s) bytes side))
+  | "writebytes" => some do
+      let f ← ofieldOfJson (← fld j "field")
+      let rep ← strOfJson (← fld j "rep")
+      let extend ← boolOfJson (← fld j "extend")
+      let N ← numIOOfJson j
+      pure (resJ natsJ (toOvfBytes N ieee f rep extend))
   | "refwrite" => some do
       let x ← contentOfJson (← fld j "content")
       let v2 ← boolOfJson (← fld j "v2")
